@@ -39,12 +39,15 @@ PID = "C06"
 class NModel:
     """nonlinear / linear model for stacked-time checks"""
 
-    def __init__(self, name, tvars, eqs, params, init, shocks, logvars=(), linear=False, backward=False):
+    def __init__(self, name, tvars, eqs, params, init, shocks, logvars=(), linear=False, backward=False, xvars=()):
         self.name, self.tvars, self.eqs, self.params, self.init, self.shocks = name, tuple(tvars), tuple(eqs), dict(params), dict(init), tuple(shocks)
         self.logvars, self.linear, self.backward = tuple(logvars), linear, backward
+        self.xvars = tuple(xvars)        # exogenous variables: their whole path is an input
 
     def source(self):
         s = "!transition-variables\n    " + ", ".join(self.tvars) + "\n!transition-shocks\n    " + ", ".join(self.shocks) + "\n"
+        if self.xvars:
+            s += "!exogenous-variables\n    " + ", ".join(self.xvars) + "\n"
         if self.params:
             s += "!parameters\n    " + ", ".join(self.params) + "\n"
         if self.logvars:
@@ -67,6 +70,10 @@ def models():
     M.append(NModel("lin_lead2", ("q", "s"),
                     ("q = 0.25*q[+2] + 0.25*q[-1] + 0.5*s + 0.3 + eq", "s = 0.5*s[-2] + 0.25*s[-1] + 0.1 + es"),
                     dict(), dict(q=1.0, s=0.4), ("eq", "es"), linear=True))
+    # a linear model with an EXOGENOUS variable whose path is an input like the shocks
+    M.append(NModel("lin_exog", ("x", "y"),
+                    ("x = rho*x[-1] + gam*w + e", "y = 0.5*y[+1] + 0.3*x + u"),
+                    dict(rho=0.7, gam=0.5), dict(x=0.0, y=0.0, w=0.0), ("e", "u"), linear=True, xvars=("w",)))
     M.append(NModel("lin_backward", ("y", "z"),
                     ("y = a*y[-1] + b*y[-2] + ey", "z = c*z[-1] + d*y + ez"),
                     dict(a=0.5, b=0.2, c=0.3, d=0.4), dict(y=0.0, z=0.0), ("ey", "ez"), linear=True, backward=True))
@@ -105,6 +112,9 @@ def make_db(ir, nm, m, start, nsim, values=None, unant_periods=(0,), ant_periods
             for k in (nsim, nsim + 1):
                 x[start + k] = val(n, k, lv[n] * (1.01 + 0.005 * i))
             db[n] = x
+    for i, n in enumerate(nm.xvars):
+        # the whole path of an exogenous variable (initial, simulated and terminal periods) is data
+        db[n] = ir.Series(start=start - 2, values=tuple(val(n, k, 0.25 + 0.125 * ((i + k) % 3)) for k in range(-2, nsim + 2)))
     for i, s in enumerate(nm.shocks):
         db[s] = ir.Series(start=start, values=tuple(val(s, k, 0.03 if k in unant_periods else 0.0) if k in unant_periods else 0.0 for k in range(nsim)))
         db["ant_" + s] = ir.Series(start=start, values=tuple(val("ant_" + s, k, 0.02) if (k in ant_periods and i == 0) else 0.0 for k in range(nsim)))
@@ -270,7 +280,7 @@ def _run(ir, nm, m, method, terminal, nsim, unant, ant, exact=False, values=None
     start = ir.qq(2020, 1)
     span = start >> (start + nsim - 1)
     db = make_db(ir, nm, m, start, nsim, values=values, unant_periods=unant, ant_periods=ant, terminal_data=(terminal == "data"))
-    lift_rows = set(nm.tvars) | set(nm.shocks) | {"ant_" + s for s in nm.shocks} | (set(nm.params) if lift_params else set())
+    lift_rows = set(nm.tvars) | set(nm.xvars) | set(nm.shocks) | {"ant_" + s for s in nm.shocks} | (set(nm.params) if lift_params else set())
 
     def cells(name, k):
         if name.startswith("ant_"):
@@ -408,7 +418,7 @@ def check_matches_first_order(run, ir, nm, m, method, nsim, unant, ant):
     case = dict(kind="match", model=nm.name, method=method, nsim=nsim, unant=list(unant), ant=list(ant))
     L, path, db, span = _run(ir, nm, m, method, "first_order", nsim, unant, ant, exact=True, lift_params=False)
     start = span.start
-    rows = set(nm.tvars) | set(nm.shocks) | {"ant_" + s for s in nm.shocks}
+    rows = set(nm.tvars) | set(nm.xvars) | set(nm.shocks) | {"ant_" + s for s in nm.shocks}
 
     def where(name, k):
         if name.startswith("ant_"):
